@@ -898,10 +898,10 @@ PROPS['C18'].update(
     assumptions=['bounded: patterns <= 5 bytes, lists <= 3 rules, probe path a/b/c', 'filter_content (printf based), hidden-file rule, -f/-d/-m/-e selection in state_filter and "nothing outside the selection is written" are NOT yet under an obligation'],
     not_covered=['filter_content', 'filter_hidden', 'state_filter', 'scan.c call sites'])
 PROPS['C20'].update(
-    explanation='Only the escaping layer of the reports: esc_tag is reversible for every string (<= 5 bytes, all byte values), never emits a raw newline / carriage return / colon and only the escapes \\n \\r \\d \\\; esc_shell output read back under POSIX shell quoting rules is the original single word, no blank or metacharacter is left unquoted - EXCEPT tab and newline, which it leaves raw (KNOWN-FINDING, shown with the real binary: `snapraid list` prints a file named a<LF>b on two lines).',
+    explanation='The escaping layer of the reports and the bad / unsynced summary of status (state_status per-stripe loop: exact count, first and last position of bad stripes, exact unsynced / rehash / unscrubbed counts): esc_tag is reversible for every string (<= 5 bytes, all byte values), never emits a raw newline / carriage return / colon and only the escapes \\n \\r \\d \\\; esc_shell output read back under POSIX shell quoting rules is the original single word, no blank or metacharacter is left unquoted - EXCEPT tab and newline, which it leaves raw (KNOWN-FINDING, shown with the real binary: `snapraid list` prints a file named a<LF>b on two lines).',
     trusted_base=['POSIX shell quoting rules as transcribed in harness/h_esc.c'],
-    assumptions=['strings bounded to 5 bytes (every escape is per character, independent of position)', 'list / dup / status / pool bodies (printf + file system over tommy lists) are NOT under an obligation'],
-    not_covered=['list.c, dup.c, status.c, pool.c bodies', 'hash_compare of dup'])
+    assumptions=['strings bounded to 5 bytes (every escape is per character, independent of position)', 'list / dup / diff / pool bodies (printf + file system over tommy lists) are NOT under an obligation; of status only the per-stripe summary loop is (bounded: 4 stripes, 2 disks)'],
+    not_covered=['list.c, dup.c, pool.c bodies, the rest of status.c (file statistics, scrub age histogram)', 'hash_compare of dup'])
 MANIFEST_TEXT.update({
     'C15': dict(level_text='The selection rule of every plan and the limit arithmetic are per-call statements and are decided for all inputs (decision table) / all sorted maps up to 8 entries (limits). The per-stripe mark update inside the 700-line scrub loop and liveness are not claimed - hence level other with the exact functions listed.',
                 design_ref='DESIGN.md section 4 C15', level_note='region extraction for the limit computation; qsort assumed; mark-update chain and liveness not covered', technique='CBMC contracts (dfcc replace) + driver on real cmdline/scrub.c, mechanically extracted region'),
@@ -1009,8 +1009,8 @@ MANIFEST_TEXT['C14'] = dict(level_text='Narrow: the refuse / proceed decision of
 PROPS['C11'].update(
     explanation='Only the per-entry and per-command DECISIONS of the statement, each on the real code: (1) scan_file (whole body extracted, callees by recording stub) classifies one directory entry against the recorded state: kept (same inode or path AND same size and time-stamp: equal / moved / restored) or a NEW file object - so every file whose size or time-stamp changed loses its block states and hashes and is read again by sync (file_copy makes inherited hashes provisional REP, also read again); exactly one change counter per entry; (2) the verdict of diff: a difference is reported iff some disk has an added / removed / updated / moved / copied / restored entry or parity_is_invalid (real: some stripe holds a file block and a block without valid parity, i.e. a previous sync was incomplete); main() turns it into exit status 2 and neither syncs nor writes; (3) the sync branch of main reads, scans, syncs and writes the content file iff something changed.',
     trusted_base=['region extraction of state_diffscan, main and of the body of scan_file', 'the index structures and every callee of scan_file by stub'],
-    assumptions=['the directory walk (scan_dir: lstat / readdir / filters / links / empty dirs), scan_disk (removal detection = entries not marked present, count_remove), scan_link and scan_emptydir are NOT under an obligation', 'that list / check agree with the real tree afterwards is a whole-command statement over the file system and is not decided', 'scan orders and parallel scanning are not addressed (threads)'],
-    not_covered=['scan_dir, scan_disk, scan_link, scan_emptydir', 'state_diffscan insertion order / delayed allocation', 'list.c', 'histories of operations'])
+    assumptions=['the directory walk (scan_dir: lstat / readdir / filters) and scan_disk (removal detection = entries not marked present, count_remove) are NOT under an obligation; scan_link and scan_emptydir are (whole bodies extracted)', 'that list / check agree with the real tree afterwards is a whole-command statement over the file system and is not decided', 'scan orders and parallel scanning are not addressed (threads)'],
+    not_covered=['scan_dir, scan_disk', 'state_diffscan insertion order / delayed allocation', 'list.c', 'histories of operations'])
 MANIFEST_TEXT['C11'] = dict(level_text='Narrow: how one directory entry is classified against the recorded state (and therefore re-read or trusted) and when diff reports a difference are per-call statements and are decided for all inputs; the directory walk, removal detection, links and the agreement of list / check with the real tree are not - level other.',
                             design_ref='DESIGN.md section 4', level_note='callees and index structures by stub; scan_dir / scan_disk not covered', technique='CBMC drivers on the mechanically extracted body of scan_file and regions of state_diffscan / main; bounded unit on real cmdline/parity.c')
 PROPS['C12'].update(
